@@ -744,7 +744,7 @@ PROPS['C11'] = dict(
     functions=['ring::hash', 'ring::hash_with_dxdy', 'ring::hash_with_dldh', 'ring::deal_with_1x1_box', 'ring::dldh_to_dxdy', 'ring::center_of_projected_cell',
                'ring::polar_cap_ring_index', 'ring::sph_coo', 'ring::center', 'ring::vertices', 'ring::check_hash', 'ring::triangular_number_x4'],
     bounds={'quick': 'every image point of the polar bands (range, offsets, containment; polar base-cell borders included) at nside 1; every cell (centre round trip, sph_coo) at nside 1, 2, 3; every consecutive pair (order) at nside 1; guards at nside 3 (each harness < 8 min: the quick command is stopped after 15 min)',
-            'thorough': 'adds the equatorial band at nside 1, all bands at nside 2 (and the polar base-cell borders alone), image points at nside 3, 5 split by base-cell column, centres / order at nside 2, 3, 4, 5, 7, 8, 13, order at 2^29-1, 2^29 (other nside: tier extended; harnesses that exceed a cap are reported UNDECIDED)'},
+            'thorough': 'adds the equatorial band at nside 1, all bands at nside 2 (and the polar base-cell borders alone), image points of the polar bands at nside 3 split by base-cell column (20-30 min each; the equatorial band at nside 3 and all bands at nside 5 were undecided after 40 min or close to it: tier extended), centres at nside 4, 5, 7, 8, order at nside 2, 3, 4, 5, 7, 8, 13, 2^29-1, 2^29 (other nside: tier extended; harnesses that exceed a cap are reported UNDECIDED)'},
     outside='other nside values; the composition with the real proj / unproj (the plane cut): decided separately in C17 (image, reference formulae) and evaluated by the native oracle on replay',
     assumptions=_LIBM_ASSUME + ['plane cut: proj returns an arbitrary point of the HEALPix image (guarantee I of C17, slack 2^-50), unproj is the identity on the plane with its domain assertion kept'],
 )
@@ -854,7 +854,7 @@ _KEEP_T = {
     'C08': r'^(?!c08_(or_2_1|xor_1_2)_dm11)',
     'C09': r'^(?!c09_views_\w+_3_dm1$)(?!c09_views_array_)',
     'C10': r'_d(2|3)$|^c10_\w+_eqr_d(5|8|16|17|28)$|^c10_ringends_[ns]_(d26_k67108800|d29_k536870848|d29_k402653184)$',
-    'C11': r'^c11_order_n(2|3|4|5|7|8|13|536870911|536870912)$|^c11_center_n(4|5|7|8)_p\d$|^c11_point_\w+_n(3|5)_q\d$|^c11_point_\w+_n(1|2)$|^c11_seam_n2$',
+    'C11': r'^c11_order_n(2|3|4|5|7|8|13|536870911|536870912)$|^c11_center_n(4|5|7|8)_p\d$|^c11_point_(npc|spc)_n3_q\d$|^c11_point_\w+_n(1|2)$|^c11_seam_n2$',
     'C14': r'^c14_(internal|parts|dirs)_',
     'C15': r'^(?!c15_fixed_)|^c15_fixed_(d1_cap2_m2)$',
     'C16': r'.',
